@@ -324,6 +324,13 @@ cell_t offset_map_t::mk_cell(const offset_t &o, uint64_t size /*bytes*/) {
     insert_cell(nc);
     c = nc;
     CRAB_LOG("array-adaptive", crab::outs() << "**Created cell " << c << "\n";);
+  } else if (c.is_removed()) {
+    // the cell was killed before (marked as removed): it is a live
+    // cell again, otherwise it would not overlap with later accesses.
+    erase_cell(c);
+    cell_t nc(o, size);
+    insert_cell(nc);
+    c = nc;
   }
   if (c.is_null()) {
     CRAB_ERROR("cannot create a null cell from offset ", o, " and size ", size);
